@@ -17,11 +17,6 @@ def lower (s : Name) : Name := s.map lowerC
 /-- `len(strings.Split(s, "."))` -/
 def numParts (s : Name) : Nat := s.count '.' + 1
 
-/-- `strings.Index(s, pat)`: offset of the FIRST occurrence -/
-def indexOf (pat : Name) : Name → Option Nat
-  | [] => if pat.isPrefixOf [] then some 0 else none
-  | c :: t => if pat.isPrefixOf (c :: t) then some 0 else (indexOf pat t).map (· + 1)
-
 def rcSuccess : Nat := 0
 def rcServFail : Nat := 2
 def rcNameError : Nat := 3
@@ -42,13 +37,13 @@ inductive Ans where
 /-- `isImmediate` -/
 def isImmediate (zone q : Name) : Bool :=
   let qn := lower q
-  zone.isSuffixOf qn && decide (numParts qn ≥ numParts zone) && decide (numParts qn - numParts zone ≤ 1)
+  (qn == zone || ('.' :: zone).isSuffixOf qn) &&
+    decide (numParts qn ≥ numParts zone) && decide (numParts qn - numParts zone ≤ 1)
 
-/-- the label `answerTXT` looks up: `qname[0:idx-1]` for the first occurrence of the zone, if `idx > 0` -/
+/-- the label `answerTXT` looks up: the part of the name in front of ".zone", if the zone is a suffix on a label boundary -/
 def txtLabel (zone q : Name) : Option Name :=
-  match indexOf zone (lower q) with
-  | some idx => if idx = 0 then none else some ((lower q).take (idx - 1))
-  | none => none
+  let qn := lower q
+  if ('.' :: zone).isSuffixOf qn then some (qn.take (qn.length - zone.length - 1)) else none
 
 def statics (cfg : Cfg) (q : Name) (qtype : Nat) : List Ans :=
   (cfg.recs.filter (fun r => r.1 == lower q && r.2.1 == qtype)).map (fun r => .static r.2.2)
